@@ -748,7 +748,9 @@ func (s *BaseNodeService) processMessage(message storage.Message) (*types.Operat
 	}
 
 	// we can't verify a message at this moment, cause we don't have public keys of participants
-	if fsm.Event(message.Event) != spf.EventInitProposal {
+	// (that holds for the proposal that opens a round only: under the same event name a message
+	// for a round that is already under way is verified like any other)
+	if fsm.Event(message.Event) != spf.EventInitProposal || fsmInstance.FSMDump().State != fsm.StateGlobalIdle {
 		if err := s.verifyMessage(fsmInstance, message); err != nil {
 			return nil, fmt.Errorf("failed to verifyMessage %+v: %w", message, err)
 		}
